@@ -18,6 +18,13 @@ use swift_mt_message::traits::SwiftMessageBody;
 
 const POISON: &[&str] = &["\u{e9}", "\u{ff11}", "\u{0}", "\u{1f600}", "\u{661}"];
 const BUDGET_MS: u128 = 2000;
+/// (byte width, character): one lower-case letter, upper-case letter, digit and symbol per width --
+/// Unicode-aware class tests (is_uppercase, is_alphabetic, is_numeric ...) accept the first three
+const WIDE: [(usize, &str); 11] = [
+    (2, "\u{e9}"), (2, "\u{c9}"), (2, "\u{661}"), (2, "\u{a7}"),
+    (3, "\u{ff41}"), (3, "\u{ff21}"), (3, "\u{ff11}"), (3, "\u{20ac}"),
+    (4, "\u{1d400}"), (4, "\u{1d7cf}"), (4, "\u{1f600}"),
+];
 
 struct Rec {
     w: std::io::BufWriter<std::fs::File>,
@@ -136,6 +143,52 @@ fn json_sessions<T: SwiftMessageBody + serde::de::DeserializeOwned>(rec: &mut Re
     let j = match serde_json::to_value(&m) { Ok(j) => j, Err(_) => return };
     let mut leaves = Vec::new();
     string_leaves(&j, &mut Vec::new(), &mut leaves);
+    // structural mutations: every array emptied / cut to one element / first element doubled, every
+    // object key removed -- values the typed API can also build directly
+    let mut containers: Vec<(Vec<String>, bool)> = Vec::new();
+    fn walk_containers(v: &Value, path: &mut Vec<String>, out: &mut Vec<(Vec<String>, bool)>) {
+        match v {
+            Value::Array(a) => { out.push((path.clone(), true)); for (i, x) in a.iter().enumerate() { path.push(i.to_string()); walk_containers(x, path, out); path.pop(); } }
+            Value::Object(o) => { out.push((path.clone(), false)); for (k, x) in o.iter() { path.push(k.clone()); walk_containers(x, path, out); path.pop(); } }
+            _ => {}
+        }
+    }
+    walk_containers(&j, &mut Vec::new(), &mut containers);
+    let mut structural: Vec<(String, Value)> = Vec::new();
+    for (path, is_array) in containers {
+        let cur = get_at(&j, &path).clone();
+        if is_array {
+            let a = cur.as_array().cloned().unwrap_or_default();
+            let mut variants: Vec<Value> = vec![json!([])];
+            if a.len() > 1 { variants.push(Value::Array(a[..1].to_vec())); variants.push(Value::Array(a[1..].to_vec())); }
+            if let Some(f) = a.first() { let mut b = a.clone(); b.insert(0, f.clone()); variants.push(Value::Array(b)); }
+            for v in variants { let mut j2 = j.clone(); if path.is_empty() { continue; } set_at(&mut j2, &path, v); structural.push((format!("{} restructured", path.join(".")), j2)); }
+        } else if let Some(o) = cur.as_object() {
+            for k in o.keys() {
+                let mut o2 = o.clone();
+                o2.remove(k);
+                let mut j2 = j.clone();
+                if path.is_empty() { j2 = Value::Object(o2); } else { set_at(&mut j2, &path, Value::Object(o2)); }
+                structural.push((format!("{}.{} removed", path.join("."), k), j2));
+            }
+        }
+    }
+    for (what, j2) in structural {
+        rec.begin_with("json", text, json!({"mt": T::message_type(), "path": what, "value": ""}));
+        let m2 = rec.call("from_json", || serde_json::from_value::<SwiftMessage<T>>(j2.clone()).map_err(|e| e.to_string()));
+        if let Some(m2) = &m2 {
+            let txt = rec.call("serialise", || Ok::<_, String>(m2.to_mt_message()));
+            rec.call("validate_full", || Ok::<_, String>(m2.fields.validate_network_rules(false).len()));
+            rec.call("validate_stop", || Ok::<_, String>(m2.fields.validate_network_rules(true).len()));
+            rec.call("validate_message", || Ok::<_, String>(m2.validate().errors.len()));
+            rec.call("to_json", || serde_json::to_value(m2).map(|_| ()).map_err(|e| e.to_string()));
+            if let Some(txt) = txt {
+                rec.call("parse_typed", || SwiftParser::parse::<T>(&txt).map(|_| ()).map_err(|e| e.to_string()));
+            }
+        }
+        rec.call("publish", || { let r = run_plugin("publish_mt", json!({"json": j2}), json!({"source": "json", "target": "out"})); if r.ok { Ok(()) } else { Err(r.err) } });
+        rec.end();
+    }
     for (path, is_str) in leaves {
         let mut variants: Vec<Value> = Vec::new();
         if is_str {
@@ -283,13 +336,13 @@ pub fn run(args: &[String]) -> i32 {
         // byte-length-preserving substitutions: k ASCII characters become one k-byte character, so
         // every byte-length check still passes while the fixed offsets fall inside a character
         for pos in 0..n {
-            for (k, p) in [(2usize, "\u{e9}"), (2, "\u{661}"), (3, "\u{ff11}"), (4, "\u{1f600}")] {
+            for (k, p) in WIDE {
                 if pos + k > n { continue; }
                 let t: String = base.chars().take(pos).chain(p.chars()).chain(base.chars().skip(pos + k)).collect();
                 field_session(&mut rec, tag, &t);
             }
             // same position, a digit of another script (Unicode-aware digit tests accept it)
-            for d in ['\u{661}', '\u{ff11}', '\u{b2}', '\u{bd}'] {
+            for d in ['\u{661}', '\u{ff11}', '\u{b2}', '\u{bd}', '\u{c9}', '\u{3a9}', '\u{ff21}', '\u{e9}'] {
                 let t: String = base.chars().enumerate().map(|(i, c)| if i == pos { d } else { c }).collect();
                 field_session(&mut rec, tag, &t);
             }
@@ -340,13 +393,16 @@ pub fn run(args: &[String]) -> i32 {
     // ---- message level: walks, poisoned in every field, truncated at every token and in the headers ----
     let f = std::io::BufReader::new(std::fs::File::open(walks).expect("walks"));
     let mut seen_types: std::collections::BTreeMap<String, usize> = Default::default();
-    let mut json_bases: Vec<(String, String)> = Vec::new();
+    let mut json_bases: Vec<(String, String, bool)> = Vec::new();
     for (case_id, line) in f.lines().map_while(|l| l.ok()).enumerate() {
         let v: Value = match serde_json::from_str(&line) { Ok(v) => v, Err(_) => continue };
         let c = parse_case(v);
-        let per_type = if thorough { 40 } else { 6 };
-        let cnt = seen_types.entry(c.mt.clone()).or_insert(0);
-        if *cnt >= per_type || (c.raw["mode"] != "full" && *cnt > 0 && rng.below(3) != 0) { continue; }
+        // the walks with every optional element present always take part (they reach the most code);
+        // of the others a sample
+        let is_full_walk = c.raw["mode"] == "full";
+        let per_type = if is_full_walk { if thorough { 12 } else { 3 } } else if thorough { 40 } else { 5 };
+        let cnt = seen_types.entry(format!("{}{}", c.mt, is_full_walk)).or_insert(0);
+        if *cnt >= per_type || (!is_full_walk && *cnt > 0 && rng.below(3) != 0) { continue; }
         *cnt += 1;
         let fields = match concretise_salted(&contents, &c.toks, case_id % 3, case_id) { Some(f) => f, None => continue };
         let base = full_message(&c.mt, &block4_text(&fields));
@@ -383,17 +439,20 @@ pub fn run(args: &[String]) -> i32 {
         for input in inputs {
             with_mt!(c.mt.as_str(), T => message_session::<T>(&mut rec, &input), else ());
         }
-        if json_bases.iter().filter(|b| b.0 == c.mt).count() < 2 { json_bases.push((c.mt.clone(), base.clone())); }
+        let is_full = c.raw["mode"] == "full";
+        if json_bases.iter().filter(|b| b.0 == c.mt && b.2 == is_full).count() < (if is_full { 3 } else { 1 }) {
+            json_bases.push((c.mt.clone(), base.clone(), is_full));
+        }
         if samples.len() < 3 { samples.push(json!({"mt": c.mt, "base": base})); }
     }
 
     // ---- JSON given from outside: every string leaf of a valid message's JSON made hostile ----------
-    for (mt, base) in json_bases.iter() {
+    for (mt, base, _) in json_bases.iter() {
         with_mt!(mt.as_str(), T => json_sessions::<T>(&mut rec, base, thorough), else ());
     }
 
     // ---- legacy field-map API and tag utilities -------------------------------------------------
-    for (_, base) in json_bases.iter() {
+    for (_, base, _) in json_bases.iter() {
         let b4 = base.find("{4:").map(|s| &base[s + 3..]).unwrap_or("");
         let mut texts: Vec<String> = vec![b4.to_string(), base.clone()];
         let n = b4.chars().count();
@@ -416,6 +475,94 @@ pub fn run(args: &[String]) -> i32 {
         rec.call("tag_util", || Ok::<_, String>(normalize_field_tag(t).len()));
         rec.call("tag_util", || Ok::<_, String>(extract_base_tag(t).len()));
         rec.end();
+    }
+
+    // ---- public helper functions of fields::swift_utils / field_utils on hostile strings -------------
+    {
+        use swift_mt_message::fields::field_utils as fu;
+        use swift_mt_message::fields::swift_utils as su;
+        let bases: &[&str] = &["DEUTDEFFXXX", "DEUTDEFF", "240719", "20240719", "1230", "2407191230", "USD", "1234,56", "GB82WEST12345698765432",
+            "/C/12345678", "//FW021000021", "1/ACME CORP", "REF123456", "ABC/DEF", "LINE ONE\nLINE TWO", ":50K:", "50K", "NAME\nSTREET\nCITY", "A", ""];
+        let mut inputs: Vec<String> = Vec::new();
+        for b in bases {
+            inputs.push(b.to_string());
+            let n = b.chars().count();
+            for pos in 0..n {
+                for (k, p) in WIDE {
+                    if pos + k <= n { inputs.push(b.chars().take(pos).chain(p.chars()).chain(b.chars().skip(pos + k)).collect()); }
+                    inputs.push(insert_at(b, pos, p));
+                }
+                inputs.push(b.chars().take(pos).collect());
+            }
+        }
+        for t in inputs {
+            rec.begin("util", &t);
+            let r = |x: bool| if x { Ok(()) } else { Err(String::new()) };
+            rec.call("util_parse", || r(su::parse_exact_length(&t, 3, "x").is_ok()));
+            rec.call("util_parse", || r(su::parse_max_length(&t, 16, "x").is_ok()));
+            rec.call("util_parse", || r(su::parse_length_range(&t, 1, 16, "x").is_ok()));
+            rec.call("util_parse", || r(su::parse_alphanumeric(&t, "x").is_ok()));
+            rec.call("util_parse", || r(su::parse_uppercase(&t, "x").is_ok()));
+            rec.call("util_parse", || r(su::parse_numeric(&t, "x").is_ok()));
+            rec.call("util_parse", || r(su::parse_swift_digits(&t, "x").is_ok()));
+            rec.call("util_parse", || r(su::parse_swift_chars(&t, "x").is_ok()));
+            rec.call("util_parse", || r(su::parse_bic(&t).is_ok()));
+            rec.call("util_parse", || r(su::parse_account(&t).is_ok()));
+            rec.call("util_parse", || r(su::parse_currency(&t).is_ok()));
+            rec.call("util_parse", || r(su::parse_currency_non_commodity(&t).is_ok()));
+            rec.call("util_parse", || r(su::validate_non_commodity_currency(&t).is_ok()));
+            rec.call("util_parse", || r(su::parse_amount(&t).is_ok()));
+            rec.call("util_parse", || r(su::parse_amount_with_currency(&t, "USD").is_ok()));
+            rec.call("util_parse", || r(su::parse_amount_with_currency("1,5", &t).is_ok()));
+            rec.call("util_parse", || r(su::validate_amount_decimals(1.5, &t).is_ok()));
+            rec.call("util_parse", || r(su::parse_date_yymmdd(&t).is_ok()));
+            rec.call("util_parse", || r(su::parse_date_yyyymmdd(&t).is_ok()));
+            rec.call("util_parse", || r(su::parse_time_hhmm(&t).is_ok()));
+            rec.call("util_parse", || r(su::parse_datetime_yymmddhhmm(&t).is_ok()));
+            rec.call("util_parse", || r(su::parse_reference(&t).is_ok()));
+            rec.call("util_parse", || r(su::validate_iban(&t).is_ok()));
+            rec.call("util_parse", || r(fu::parse_party_identifier(&t).is_ok()));
+            rec.call("util_parse", || r(fu::parse_multiline_text(&t, 4, 35).is_ok()));
+            rec.call("util_parse", || { let l: Vec<&str> = t.split('\n').collect(); r(fu::parse_name_and_address(&l, 0, "x").is_ok()) });
+            rec.call("util_parse", || { let l: Vec<&str> = t.split('\n').collect(); r(fu::validate_multiline_text(&l, 4, 35, "x").is_ok()) });
+            rec.call("util_parse", || { let l: Vec<&str> = t.split('\n').collect(); r(fu::parse_numbered_lines(&l).is_ok()) });
+            rec.call("util_parse", || r(fu::content_lines(&t, "x").is_ok()));
+            rec.call("tag_util", || Ok::<_, String>(su::get_currency_decimals(&t)));
+            rec.call("tag_util", || Ok::<_, String>(su::format_swift_amount_for_currency(1.5, &t)));
+            rec.call("tag_util", || Ok::<_, String>(su::split_at_first(&t, '/')));
+            rec.call("tag_util", || Ok::<_, String>(su::split_at_newline(&t)));
+            rec.call("tag_util", || Ok::<_, String>(su::normalize_text(&t)));
+            rec.call("tag_util", || Ok::<_, String>(fu::parse_payment_method(&t).is_some()));
+            rec.call("tag_util", || Ok::<_, String>(fu::parse_field_tag(&t)));
+            rec.call("tag_util", || Ok::<_, String>(fu::is_numbered_line(&t)));
+            rec.call("tag_util", || Ok::<_, String>(fu::extract_field_number(&t)));
+            rec.call("tag_util", || Ok::<_, String>(fu::extract_field_option(&t)));
+            rec.call("tag_util", || Ok::<_, String>(fu::parse_field_with_suffix(&t)));
+            rec.end();
+        }
+    }
+
+    // ---- legacy consumption tracker with hostile values (long, multi-byte) --------------------------
+    {
+        use std::collections::HashMap;
+        use swift_mt_message::parser::{FieldConsumptionTracker, find_field_with_variant_sequential_constrained};
+        let long: String = "A".repeat(49);
+        for tagv in ["86", "90D", "50K", "20"] {
+            for (k, p) in WIDE {
+                for off in 0..k {
+                    let value = format!("{}{}{}", &long[..49 - off], p, "B".repeat(20));
+                    rec.begin("tracker", &format!("{}={}", tagv, value));
+                    let mut fields: HashMap<String, Vec<(String, usize)>> = HashMap::new();
+                    fields.insert(tagv.to_string(), vec![(value.clone(), 0), (value.clone(), 1)]);
+                    let mut tr = FieldConsumptionTracker::new();
+                    let base: String = tagv.chars().filter(|c| c.is_ascii_digit()).collect();
+                    rec.call("legacy_extract", || find_field_with_variant_sequential_constrained(&fields, &base, &mut tr, None).map(|_| ()).ok_or_else(String::new));
+                    rec.call("legacy_extract", || find_field_with_variant_sequential_constrained(&fields, tagv, &mut tr, None).map(|_| ()).ok_or_else(String::new));
+                    rec.call("legacy_extract", || tr.get_next_available(tagv, fields.get(tagv).map(|v| v.as_slice()).unwrap_or(&[])).map(|_| ()).ok_or_else(String::new));
+                    rec.end();
+                }
+            }
+        }
     }
 
     // ---- tokeniser with hostile texts ---------------------------------------------------------------
